@@ -156,6 +156,8 @@ def _(em, obj, ot, args, e): return f"(*Y_VEC_AT({loc_of(em, obj)}, {em.ex(args[
 @lib(('vector', 'emplace_back'), ('vector', 'push_back'))
 def _(em, obj, ot, args, e):
     et = ot.args[0]
+    if et.kind == 'prim' and et.name == 'int':   # std::vector<std::thread>: thread creation is not modelled
+        return "Y_THREAD_SPAWN_NOT_MODELLED()"
     if len(args) == 1: val = em.ex(args[0])
     else: val = f"(({em.cn(et)}){{{', '.join(em.ex(a) for a in args)}}})"
     return f"Y_VEC_PUSH({loc_of(em, obj)}, {em.cn(et)}, {val})"
@@ -184,3 +186,15 @@ def _(em, obj, ot, args, e):  # vector iterator arithmetic (iterators are elemen
 def _(em, obj, ot, args, e): return f"({em.ex(obj[0])} != {em.ex(args[0])})"
 @lib(('opaque', 'operator=='))
 def _(em, obj, ot, args, e): return f"({em.ex(obj[0])} == {em.ex(args[0])})"
+
+# iterators are element pointers
+@lib(('ptr', 'operator!='))
+def _(em, obj, ot, args, e): return f"({em.ex(obj[0])} != {em.ex(args[0])})"
+@lib(('ptr', 'operator=='))
+def _(em, obj, ot, args, e): return f"({em.ex(obj[0])} == {em.ex(args[0])})"
+@lib(('ptr', 'operator++'))
+def _(em, obj, ot, args, e): return f"(++{em.ex(obj[0])})"
+@lib(('ptr', 'operator*'))
+def _(em, obj, ot, args, e): return f"(*{em.ex(obj[0])})"
+@lib(('prim', 'join'))
+def _(em, obj, ot, args, e): return "((void)0)"
